@@ -476,13 +476,24 @@ class CallMixin:
             if r is not None:
                 return r
         if self.root_spec is not None and self.root_spec.at_call and not st.spec and st.depth == 0:
-            key = ast.unparse(e)
-            if key in self.root_spec.at_call:
+            text = ast.unparse(e)
+            for key, clauses in self.root_spec.at_call.items():
+                # a key is the whole call text, or (ending in "(") the callee expression: every call of it is then checked
+                if not (text == key or (key.endswith("(") and text.startswith(key))):
+                    continue
                 self.at_call_seen.add(key)
                 s0 = st.copy()
                 s0.old = self.entry_state
                 s0.pc = st.pc
-                for clause in self.root_spec.at_call[key]:
+                s0.store = dict(st.store)
+                s0.spec = True
+                # the actual arguments are visible to the clauses as _arg0, _arg1, ... and _kw_<name>
+                for i, a in enumerate(e.args):
+                    s0.store[f"_arg{i}"] = self.evs(a, s0)
+                for k in e.keywords:
+                    s0.store[f"_kw_{k.arg}"] = self.evs(k.value, s0)
+                s0.spec = False
+                for clause in clauses:
                     self.oblige(st, "at-call", f"{key}: {clause}", self.spec_bool(clause, s0), e)
         # evaluate callee
         out = []
